@@ -10,15 +10,14 @@ from vf.pcheck import run_p
 
 from .common import TRUSTED, generic_replay
 
-LEVEL = "exploration"
+LEVEL = "exploration"  # the level actually reported follows run_p: "proof" only when obligations tagged with the property exist
 PROP = "C16"
 
 
 def run(report, tier, seed):
     report.trusted = list(TRUSTED)
     res = run_p(report, PROP, tier)
-    if res:
-        report.level = "proof"
+    report.level = "proof" if res else "exploration"
     order_views.run(report, tier, seed)
 
 
